@@ -340,6 +340,10 @@ func (m *Module) learnFunc(pkg, recv, name string, fn *ssa.Function) {
 // that mention unexported identifiers: reasons, classifications).
 var renamedBack = map[string]string{}
 
+// renamedKind: what kind of declaration a renamed word names — a word is mapped back only where a name
+// of that kind can stand (a field `msg` must not rewrite the package qualifier in `msg.Box`).
+var renamedKind = map[string]string{}
+
 // nameBack rewrites identifiers that were resolved by fingerprint to their reference names.
 func nameBack(s string) string {
 	if len(renamedBack) == 0 {
@@ -355,7 +359,25 @@ func nameBack(s string) string {
 		if j > i {
 			w := s[i:j]
 			if r, ok := renamedBack[w]; ok {
-				w = r
+				prev, next := byte(0), byte(0)
+				if i > 0 {
+					prev = s[i-1]
+				}
+				if j < len(s) {
+					next = s[j]
+				}
+				okPos := true
+				switch renamedKind[w] {
+				case "field":
+					okPos = prev == '.'
+				case "type":
+					okPos = prev == '.' || next != '.'
+				case "func":
+					okPos = prev == '.' || prev == ')' || i == 0
+				}
+				if okPos {
+					w = r
+				}
 			}
 			sb.WriteString(w)
 			i = j
@@ -395,14 +417,17 @@ func (m *Module) resolveAllAnchors() {
 		case "type":
 			if n := m.LookupType(a.Pkg, a.Name); n != nil && n.Obj().Name() != a.Name {
 				renamedBack[n.Obj().Name()] = a.Name
+				renamedKind[n.Obj().Name()] = "type"
 			}
 		case "field":
 			if f := m.Field(a.Pkg, a.Owner, a.Name); f != nil && f.Name() != a.Name {
 				renamedBack[f.Name()] = a.Name
+				renamedKind[f.Name()] = "field"
 			}
 		case "func":
 			if fn := m.Func(a.Pkg, a.Owner, a.Name); fn != nil && fn.Name() != a.Name {
 				renamedBack[fn.Name()] = a.Name
+				renamedKind[fn.Name()] = "func"
 			}
 		}
 	}
@@ -449,7 +474,81 @@ func (m *Module) typeByFingerprint(pkg, name string) *types.Named {
 		noteFallback("type %s.%s resolved by its shape to %s (renamed)", pkg, name, hits[0].Obj().Name())
 		return hits[0]
 	}
+	if len(hits) == 0 && strings.Count(fp.Shape, ";") >= 2 {
+		// renamed AND its method set reorganised (methods split or merged): a struct of at least three
+		// fields whose shape is unique among the package's unexported types
+		for _, nm := range sc.Names() {
+			tn, ok := sc.Lookup(nm).(*types.TypeName)
+			if !ok || tn.Exported() || tn.IsAlias() {
+				continue
+			}
+			n, ok := tn.Type().(*types.Named)
+			if !ok {
+				continue
+			}
+			if _, other := anchorTable[anchorKey("type", pkg, "", nm)]; other {
+				continue
+			}
+			if c := m.typeFP(pkg, n); c.Shape == fp.Shape {
+				hits = append(hits, n)
+			}
+		}
+		if len(hits) == 1 {
+			noteFallback("type %s.%s resolved by its struct shape to %s (renamed, methods reorganised)", pkg, name, hits[0].Obj().Name())
+			return hits[0]
+		}
+	}
 	return nil
+}
+
+// fieldInNestedStruct: a recorded field of owner that is no longer among the owner's fields may have moved
+// into a struct-typed unexported field of the owner (state grouped into a sub-object: `r.ledger.pinned`).
+// It is the field of that nested struct with the recorded type shape, provided exactly one nested field
+// (over all nested structs, one level) has that shape.
+func (m *Module) fieldInNestedStruct(pkg, owner string, st *types.Struct, field string) *types.Var {
+	fp := anchorTable[anchorKey("field", pkg, owner, field)]
+	if fp == nil {
+		return nil
+	}
+	var hits []*types.Var
+	for i := 0; i < st.NumFields(); i++ {
+		of := st.Field(i)
+		if of.Exported() {
+			continue
+		}
+		t := of.Type()
+		if pt, ok := t.Underlying().(*types.Pointer); ok {
+			t = pt.Elem()
+		}
+		nt := namedOf(t)
+		if nt == nil || nt.Obj().Pkg() == nil || !ownPkgPath(nt.Obj().Pkg().Path()) || nt.Obj().Exported() {
+			continue
+		}
+		// not a type that is itself a recorded anchor (an entry type, a key type)
+		if _, other := anchorTable[anchorKey("type", pkg, "", nt.Obj().Name())]; other {
+			continue
+		}
+		ns, ok := nt.Underlying().(*types.Struct)
+		if !ok {
+			continue
+		}
+		for j := 0; j < ns.NumFields(); j++ {
+			if nf := ns.Field(j); !nf.Exported() && shapeOf(nf.Type(), 0) == fp.Shape {
+				hits = append(hits, nf)
+			}
+		}
+	}
+	if len(hits) != 1 {
+		return nil
+	}
+	// the shape must also have been unique among the owner's recorded fields (ordinal 0, no sibling)
+	for _, a := range anchorTable {
+		if a.Kind == "field" && a.Pkg == pkg && a.Owner == owner && a.Shape == fp.Shape && a.Name != field {
+			return nil
+		}
+	}
+	noteFallback("field %s.%s.%s resolved to %s of a nested struct (state grouped into a sub-object)", pkg, owner, field, hits[0].Name())
+	return hits[0]
 }
 
 func (m *Module) fieldByFingerprint(pkg, owner string, st *types.Struct, field string) *types.Var {
